@@ -106,9 +106,9 @@ def pyInt (s : Bytes) : Option Int :=
   match strip s with
   | [] => none
   | b :: r =>
-    if b = 45 then (pyDigits r).map (fun n => - (n : Int))
-    else if b = 43 then (pyDigits r).map (fun n => (n : Int))
-    else (pyDigits (b :: r)).map (fun n => (n : Int))
+    if b = 45 then (pyDigits r).map (fun n => - Int.ofNat n)
+    else if b = 43 then (pyDigits r).map Int.ofNat
+    else (pyDigits (b :: r)).map Int.ofNat
 
 /-- `str(x)` of a float that is a non-negative multiple of 0.1 below 10¹⁵,
 given as its number of tenths (`20` ↦ `2.0`) -/
